@@ -269,6 +269,12 @@ Definition name_of_wire (b : bytes) : option name :=
   | _ => None
   end.
 
+(* RrsigExt::verify_signed_data, the part before any cryptography: a DNSKEY of
+   another algorithm than the RRSIG's is refused with InvalidData *)
+Definition alg_mismatch (sig_alg key_alg : N) : bool :=
+  verify_checks_algorithm_match && negb (sig_alg =? key_alg).
+Definition c12_alg_mismatch := alg_mismatch.
+
 Definition c12_signed_data := signed_data.
 Definition c12_sign_rrset := sign_rrset.
 Definition c12_sign_sorted (k : skey) (l : list rr) (inc exp : N) : outcome (sigf * bytes) :=
